@@ -247,6 +247,8 @@ def mutate_box(box, system, how, cell, pbcw):
     Vt, ot = gens_c02.cell_vects(cell), gens_c02.cell_origin(cell)
     if how in ('set_lengths', 'set_hi_los', 'set_abc') and (cell.get('rot') or cell.get('lefthanded') or cell.get('sym')):
         how = 'set_vects'           # those three describe LAMMPS-oriented cells only
+    if how == 'set_hi_los' and np.abs(ot).max() > 1e6 * min(abs(float(cell[k])) * float(cell.get('scale', 1.0)) for k in ('lx', 'ly', 'lz')):
+        how = 'set_lengths'         # lo/hi bounds cannot describe a cell that is below the rounding of its own origin
     if system is None and (how.startswith('sys_') or how == 'wrap'):
         raise HarnessError('history %r needs a System' % how)
     unit = float(cell.get('scale', 1.0))
